@@ -4,6 +4,7 @@ go 1.23.0
 
 require (
 	github.com/anishathalye/porcupine v1.3.0
+	github.com/fxamacker/cbor/v2 v2.8.0
 	github.com/gofiber/fiber/v3 v3.0.0
 	github.com/gofiber/utils/v2 v2.0.0-beta.8
 	github.com/valyala/fasthttp v1.60.0
@@ -11,7 +12,6 @@ require (
 
 require (
 	github.com/andybalholm/brotli v1.1.1 // indirect
-	github.com/fxamacker/cbor/v2 v2.8.0 // indirect
 	github.com/gofiber/schema v1.3.0 // indirect
 	github.com/google/uuid v1.6.0 // indirect
 	github.com/klauspost/compress v1.18.0 // indirect
